@@ -430,6 +430,30 @@ func TestC12Plasma(t *testing.T) {
 		acts["customPlasma3"] = custPlasma
 		acts["forgedBase"] = forgedBase
 		acts["highPow"] = highPow
+		// the per-block cap counts fused plasma AND proof of work: an account whose fused QSR gives the whole cap declares all of
+		// it and adds a mined proof of work worth 1 .. 87 plasma on top
+		acts["capPlusPow"] = func() {
+			for _, from := range h.Users {
+				ms := h.A.Chain.GetFrontierMomentumStore()
+				fq, err := ms.GetStakeBeneficialAmount(from)
+				if err != nil || refFusedToPlasma(fq) < refMaxBlockPlasma || len(h.A.Chain.GetUncommittedAccountBlocksByAddress(from)) > 0 {
+					continue
+				}
+				prev := h.A.Chain.GetFrontierAccountStore(from).Identifier()
+				d := uint64(1500) << uint(c.Int("cpp.dk", 0, 6))
+				nonce, ok := mine(from, prev.Hash, d, c.Uint64("cpp.start", 0, 1<<40), 1<<21)
+				if !ok {
+					return
+				}
+				fused := uint64(refMaxBlockPlasma) - uint64([]int{0, 0, 1, 50}[c.Pick("cpp.below", 4)])
+				tpl := &nom.AccountBlock{Address: from, BlockType: nom.BlockTypeUserSend, ToAddress: h.Users[c.Pick("cpp.to", len(h.Users))], TokenStandard: types.ZnnTokenStandard,
+					Amount: big.NewInt(0), FusedPlasma: fused, Difficulty: d, Nonce: nom.Nonce{Data: nonce}}
+				custom++
+				_, _ = h.Submit(tpl, fmt.Sprintf("block declaring %d fused plasma (cap %d) plus proof of work worth %d", fused, refMaxBlockPlasma, refPowPlasma(d)))
+				c.Class("block-at-the-cap-plus-proof-of-work-offered")
+				return
+			}
+		}
 		c.Repeat(acts, inv)
 		if sawMulti {
 			c.Class(">=2-unconfirmed-blocks-before-candidate")
